@@ -3,59 +3,106 @@ import Qx.Generated.SceTable
 /-!
 # C17 — the public part of an encrypted message never contains its sensitive content
 
-Property theorems only (model: `Qx/Model/C17Sce.lean`, helpers: `Qx/Proofs/C17.lean`, data:
-`Qx/Generated/SceTable.lean`, regenerated from the C++ source on every check run).
-
-The generic theorems hold for EVERY table satisfying the decidable predicates `WFwrite` / `WFshape` / `WFtable`
-and for EVERY message; the `table_*` theorems then evaluate those predicates (by `decide`, in the kernel) on the
-table extracted from today's source.  "Public part" = `QXmppMessage::toXml(writer, ScePublic)` (what
-`QXmppClient::sendSensitive` puts on the wire), "sensitive part" = `serializeExtensions(writer, SceSensitive,
-ns_client)` (what the OMEMO manager puts into the SCE envelope), "unsplit" = `toXml(writer, SceAll)`.
+Property theorems only.  Three independent ingredients:
+* the SPECIFICATION `Qx/Model/C17Spec.lean`: which wire elements (name, namespace — as the XEPs define them) are
+  conversational payload and which are routing / hint / id / explicit fallback.  Written from the property text and
+  the XEPs; it mentions nothing of the C++.
+* the TABLE `Qx/Generated/SceTable.lean`, regenerated on every check run by `translators/sce_table.py` from the real
+  `toXml` / `serializeExtensions` / `parseExtension` branches: per element kind, what is written (tags, namespaces),
+  under which mode guard, how it is recognised and under which guard.
+* the generic MODEL `Qx/Model/C17Sce.lean` of writing and parsing by such a table (tied to the library by the
+  correspondence run).
+The theorems say: IF a table agrees with the specification (decidable predicates `WFwrite`, `WFsplit`, `WFshape`,
+`WFtable`), THEN for every message the public part carries only what the specification allows, the parts partition the
+unsplit message and the receive path recovers it; and the `table_*` theorems decide (kernel `decide`) whether TODAY'S
+extracted table agrees with the specification, row by row, naming the rows that do not.
+"Public part" = `QXmppMessage::toXml(writer, ScePublic)` (what `QXmppClient::sendSensitive` puts on the wire),
+"sensitive part" = `serializeExtensions(writer, SceSensitive, ns_client)` (what the OMEMO manager puts into the SCE
+envelope), "unsplit" = `toXml(writer, SceAll)`.
 -/
 namespace Qx.C17
 open Qx.Generated.SceTable
 
-/-! ## Generic theorems: any well-formed table, all messages -/
+/-! ## Generic theorems: any table, all messages -/
 
-/-- **No payload in the public part.** Every element of the public part is a value of a field whose row is
-classified routing / hint / id / fallback — never `payload` (body, subject, thread, attachments, reactions,
-receipts, markers, … and every row the hand classification does not know). -/
-theorem public_has_no_sensitive (T : Table) (h : WFwrite T) (m : Msg) :
-    ∀ e ∈ publicPart T m, ∃ r ∈ T.rows, e ∈ m r.name ∧ r.cls ≠ .payload := by
+/-- **What can be in the public part, for ANY table** (no hypothesis): every element of the public part is a value of
+a field whose class — decided by the spec from the row's wire identities — is not `payload`, or of one of the rows the
+decidable check `offendingWrite` names. -/
+theorem public_has_no_sensitive_except (T : Table) (m : Msg) :
+    ∀ e ∈ publicPart T m, ∃ r ∈ T.rows, e ∈ m r.name ∧ (r.cls ≠ .payload ∨ r.name ∈ offendingWrite T) := by
   intro e he
   unfold publicPart writeMode at he
   obtain ⟨r, hr, her⟩ := List.mem_flatMap.mp he
   obtain ⟨hmem, hon, _⟩ := emits_sub r m .pub her
   refine ⟨r, hr, hmem, ?_⟩
-  intro hc
-  have hw := wfWrite_of_mem h hr
-  unfold Row.wfWrite at hw
-  simp only [Bool.and_eq_true, Bool.or_eq_true, bne_iff_ne, ne_eq, hc, not_true_eq_false, false_or,
-    beq_iff_eq] at hw
-  rw [hw.1.1.1] at hon
-  cases hon
+  rcases wfWrite_or_offending (T := T) hr with hw | hw
+  · left
+    intro hc
+    unfold Row.wfWrite Row.wfPayload at hw
+    simp only [Bool.and_eq_true, Bool.or_eq_true, bne_iff_ne, ne_eq, hc, not_true_eq_false, false_or,
+      beq_iff_eq] at hw
+    rw [hw.1.1] at hon
+    cases hon
+  · right; exact hw
+
+/-- **No payload in the public part.** If the table agrees with the spec on the write side, every element of the
+public part belongs to a field classified routing / hint / id / fallback — never `payload` (body, subject, thread,
+attachments, reactions, receipts, markers, …, unknown extensions, and everything the spec does not know). -/
+theorem public_has_no_sensitive (T : Table) (h : WFwrite T) (m : Msg) :
+    ∀ e ∈ publicPart T m, ∃ r ∈ T.rows, e ∈ m r.name ∧ r.cls ≠ .payload := by
+  intro e he
+  obtain ⟨r, hr, hmem, hc⟩ := public_has_no_sensitive_except T m e he
+  refine ⟨r, hr, hmem, ?_⟩
+  rcases hc with hc | hc
+  · exact hc
+  · exfalso
+    unfold offendingWrite at hc
+    obtain ⟨r', hr', _⟩ := List.mem_map.mp hc
+    have h1 := (List.mem_filter.mp hr').2
+    have h2 := wfWrite_of_mem h (List.mem_filter.mp hr').1
+    simp [h2] at h1
+
+/-- **The same, stated on the WIRE and against the spec alone**: every element of the public part has a (name,
+namespace) that `C17Spec.classOfWire` does not classify as payload — or it is the value of the designated
+explicit-fallback-text field.  (This is the statement that does not mention rows or guards at all.) -/
+theorem public_elements_allowed_by_spec (T : Table) (h : WFwrite T) (m : Msg) (hv : Msg.Valid T m) :
+    ∀ e ∈ publicPart T m, classOfWire e.tag e.ns ≠ .payload ∨ e ∈ m fallbackTextField := by
+  intro e he
+  obtain ⟨r, hr, hmem, hc⟩ := public_has_no_sensitive T h m e he
+  by_cases hn : r.name = fallbackTextField
+  · right; rw [← hn]; exact hmem
+  · left
+    have ho := (hv r hr).1 e hmem
+    have hca : r.catchAll = false := by
+      cases hca : r.catchAll
+      · rfl
+      · exact absurd (cls_catchAll hca) hc
+    unfold Row.owns at ho
+    simp only [hca, Bool.false_eq_true, if_false] at ho
+    rw [(cls_of_wire hn hc ho.1 ho.2).1]
+    exact hc
 
 /-- …equivalently: a payload-class row writes nothing at all in public mode, whatever the message. -/
 theorem payload_row_silent_in_public (T : Table) (h : WFwrite T) (m : Msg) (r : Row) (hr : r ∈ T.rows)
     (hc : r.cls = .payload) : r.emits m .pub = [] := by
   have hw := wfWrite_of_mem h hr
-  unfold Row.wfWrite at hw
+  unfold Row.wfWrite Row.wfPayload at hw
   simp only [Bool.and_eq_true, Bool.or_eq_true, bne_iff_ne, ne_eq, hc, not_true_eq_false, false_or,
     beq_iff_eq] at hw
   apply emits_eq_nil_of_off
-  rw [hw.1.1.1]; rfl
+  rw [hw.1.1]; rfl
 
 /-- **The two parts together are the unsplit message.** As multisets: unsplit ++ (one extra copy of what is written
 under the `both` / `pubOnly` guards) = public ++ sensitive … -/
-theorem parts_partition (T : Table) (h : WFwrite T) (m : Msg) :
+theorem parts_partition (T : Table) (h : WFsplit T) (m : Msg) :
     (writeMode T m .all ++ fallbackCopies T m).Perm (publicPart T m ++ sensitivePart T m) := by
   unfold writeMode fallbackCopies publicPart sensitivePart writeMode writeExt
   apply perm_flatMap_split
   intro r hr
-  exact row_partition r m (wfWrite_of_mem h hr)
+  exact row_partition r m (wfSplit_of_mem h hr).2
 
 /-- …where that extra copy consists of explicit-fallback fields only (the "aside" of the property text). -/
-theorem fallbackCopies_are_fallback (T : Table) (h : WFwrite T) (m : Msg) :
+theorem fallbackCopies_are_fallback (T : Table) (h : WFsplit T) (m : Msg) :
     ∀ e ∈ fallbackCopies T m, ∃ r ∈ T.rows, e ∈ m r.name ∧ r.cls = .fallback := by
   intro e he
   unfold fallbackCopies at he
@@ -63,11 +110,11 @@ theorem fallbackCopies_are_fallback (T : Table) (h : WFwrite T) (m : Msg) :
   split at her
   · rename_i hc
     refine ⟨r, hr, her, ?_⟩
-    have hw := wfWrite_of_mem h hr
-    unfold Row.wfWrite at hw
+    have hw := (wfSplit_of_mem h hr).1
+    unfold Row.wfShared at hw
     simp only [Bool.and_eq_true, Bool.or_eq_true, Bool.not_eq_true', beq_iff_eq] at hw hc
     have hwr : r.wrapper = false := by simpa using hc.1.1
-    rcases hw.1.1.2 with (h1 | h1) | h1
+    rcases hw with (h1 | h1) | h1
     · rcases hc.1.2 with h2 | h2 <;> simp_all
     · exact h1
     · rw [hwr] at h1; cases h1
@@ -75,7 +122,7 @@ theorem fallbackCopies_are_fallback (T : Table) (h : WFwrite T) (m : Msg) :
 
 /-- **Each element in exactly one part.** An element that is not an explicit-fallback copy occurs in the public and
 sensitive parts together exactly as often as in the unsplit message … -/
-theorem each_in_exactly_one_part (T : Table) (h : WFwrite T) (m : Msg) (e : Elem)
+theorem each_in_exactly_one_part (T : Table) (h : WFsplit T) (m : Msg) (e : Elem)
     (he : e ∉ fallbackCopies T m) :
     (writeMode T m .all).count e = (publicPart T m).count e + (sensitivePart T m).count e := by
   have := (List.perm_iff_count.mp (parts_partition T h m)) e
@@ -92,52 +139,78 @@ theorem row_in_one_part (T : Table) (m : Msg) (r : Row) (_hr : r ∈ T.rows)
 
 /-- **Parsing the public part and then the sensitive part recovers every field** (receive path: `parse(outer,
 ScePublic)`, then `parseExtensions(content, SceSensitive)` into the same object), explicit fallback markers —
-which accompany both parts — aside; and nothing ends up as an unknown extension. -/
+which accompany both parts — aside; the unknown extensions that come out are exactly the ones that went in; and the
+public part alone leaves no unknown extension. -/
 theorem split_parse_recovers (T : Table) (h : WFtable T) (m : Msg) (hv : Msg.Valid T m) :
-    (∀ r ∈ T.rows, (r.writeGuard ≠ .both ∨ r.wrapper = true) → (recover T m).msg r.name = m r.name)
-    ∧ (recover T m).unknown = []
+    (∀ r ∈ T.rows, r.catchAll = false → (r.writeGuard ≠ .both ∨ r.wrapper = true) →
+        (recover T m).msg r.name = m r.name)
+    ∧ (recover T m).unknown = catchAllValue T m
     ∧ (parseMode T (publicPart T m) .pub true Msg.empty).unknown = [] := by
   obtain ⟨hw, hs, hp⟩ := h
+  -- a catch-all row of a table that agrees with the spec is payload, hence sensitive-guarded and not a wrapper
+  have hcatch : ∀ r ∈ T.rows, r.catchAll = true → r.writeGuard = .sens ∧ r.wrapper = false := by
+    intro r hr hca
+    have hwr := wfWrite_of_mem hw hr
+    have hc := cls_catchAll hca
+    unfold Row.wfWrite Row.wfPayload Row.wfShared Row.wfWrapper at hwr
+    simp only [hc, bne_self_eq_false, Bool.false_or, Bool.and_eq_true, beq_iff_eq] at hwr
+    refine ⟨hwr.1.1, ?_⟩
+    cases hwrap : r.wrapper
+    · rfl
+    · have := hwr.2.1
+      simp [hwrap, hwr.1.1] at this
   refine ⟨?_, ?_, ?_⟩
-  · intro r hr hnb
+  · intro r hr hca hnb
     have hpr := List.all_eq_true.mp hp r hr
-    rw [recover_field hs hv hr hpr]
+    rw [recover_field hs hv hr hpr hca]
     have hwr := wfWrite_of_mem hw hr
     have hl := (hv r hr).2
-    unfold Row.wfWrite at hwr
+    unfold Row.wfWrite Row.wfWrapper at hwr
     cases hwrap : r.wrapper <;> cases hg : r.writeGuard <;>
       simp_all [emits_eq_of_on, emits_eq_nil_of_off, Guard.on]
   · unfold recover
     rw [parseMode_unknown]
     unfold sensitivePart writeExt
-    apply unknown_nil hs hp .sens (Or.inr rfl)
-    intro r hr e he
-    split at he
-    · cases he
-    · exact valid_emits hv .sens r hr e he
+    rw [unknown_part hs hp .sens (Or.inr rfl) _ (valid_emits_ext hv)]
+    unfold catchAllValue
+    apply flatMap_congr'
+    intro r hr
+    cases hca : r.catchAll
+    · rfl
+    · obtain ⟨hg, hnw⟩ := hcatch r hr hca
+      simp only [if_true, hnw, Bool.false_eq_true, if_false]
+      exact emits_eq_of_on r m .sens (by rw [hg]; rfl) (hv r hr).2
   · rw [parseMode_unknown]
     unfold publicPart writeMode
-    exact unknown_nil hs hp .pub (Or.inl rfl) _ (valid_emits hv .pub)
+    rw [unknown_part hs hp .pub (Or.inl rfl) _ (valid_emits hv .pub)]
+    apply flatMap_eq_nil_of
+    intro r hr
+    cases hca : r.catchAll
+    · rfl
+    · obtain ⟨hg, _⟩ := hcatch r hr hca
+      simp only [if_true]
+      exact emits_eq_nil_of_off r m .pub (by rw [hg]; rfl)
 
 /-- The "aside": a field written in both parts (explicit fallback markers) is read twice by the two-step parse.
 (The OMEMO manager clears the public markers before parsing the sensitive part for this reason.) -/
 theorem split_parse_fallback_twice (T : Table) (h : WFtable T) (m : Msg) (hv : Msg.Valid T m)
-    (r : Row) (hr : r ∈ T.rows) (hb : r.writeGuard = .both) (hnw : r.wrapper = false) :
+    (r : Row) (hr : r ∈ T.rows) (hca : r.catchAll = false) (hb : r.writeGuard = .both) (hnw : r.wrapper = false) :
     (recover T m).msg r.name = m r.name ++ m r.name := by
   obtain ⟨_, hs, hp⟩ := h
-  rw [recover_field hs hv hr (List.all_eq_true.mp hp r hr)]
+  rw [recover_field hs hv hr (List.all_eq_true.mp hp r hr) hca]
   have hl := (hv r hr).2
   simp [hnw, emits_eq_of_on r m _ (by rw [hb]; rfl) hl]
 
 /-- Row-wise version that does not need the whole table to be sound: if the table is globally distinguishable,
 every row whose recogniser sits under the guard of its writer is recovered — whatever is wrong with other rows. -/
-theorem split_parse_recovers_row (T : Table) (hw : WFwrite T) (hs : WFshape T) (m : Msg) (hv : Msg.Valid T m)
-    (r : Row) (hr : r ∈ T.rows) (hp : r.wfParse = true) (hnb : r.writeGuard ≠ .both ∨ r.wrapper = true) :
+theorem split_parse_recovers_row (T : Table) (hw : WFsplit T) (hs : WFshape T) (m : Msg) (hv : Msg.Valid T m)
+    (r : Row) (hr : r ∈ T.rows) (hp : r.wfParse = true) (hca : r.catchAll = false)
+    (hnb : r.writeGuard ≠ .both ∨ r.wrapper = true) :
     (recover T m).msg r.name = m r.name := by
-  rw [recover_field hs hv hr hp]
-  have hwr := wfWrite_of_mem hw hr
+  rw [recover_field hs hv hr hp hca]
+  have hwr := (wfSplit_of_mem hw hr).2
   have hl := (hv r hr).2
-  unfold Row.wfWrite at hwr
+  unfold Row.wfWrapper at hwr
   cases hwrap : r.wrapper <;> cases hg : r.writeGuard <;>
     simp_all [emits_eq_of_on, emits_eq_nil_of_off, Guard.on]
 
@@ -164,48 +237,99 @@ theorem split_call_sites :
     sendPathMode = .pub ∧ envelopeContentMode = .sens ∧ receiveOuterMode = .pub ∧ receiveContentMode = .sens := by
   decide
 
-/-- Write side of today's table is well-formed: hence `public_has_no_sensitive`, `parts_partition`,
-`each_in_exactly_one_part` hold of the code as it is.  Moving any payload writer out of the sensitive block, or
-adding an unclassified writer to the public block or the tail, makes this `decide` fail. -/
-theorem table_wf_write : WFwrite table := by decide
+/-- OMEMO-encrypted IQs: the outer `<iq/>` is a fresh object that receives id, type, lang, from, to and the ciphertext —
+nothing else — and the envelope content is the IQ's payload (or, for an error reply, its error).  Read off
+`QXmppOmemoManager::encryptIq` / `createSceEnvelope` by the translator; the client side (`sendSensitive(iq)`,
+`sendSensitiveIq`, error replies to encrypted requests) is exercised on the real `QXmppClient` by the harness. -/
+theorem iq_outer_carries_no_payload :
+    omemoIqOuterSetters = ["setId", "setType", "setLang", "setFrom", "setTo", "setOmemoElement"]
+    ∧ iqPayloadInEnvelope = true := by decide
+
+/-- **Agreement of today's extracted table with the specification, row by row, in both directions** (payload ⇒
+sensitive guard; routing / hint / id ⇒ public guard; explicit fallback ⇒ a guard reaching the public part): every row
+agrees except the unknown extensions, which the spec says are payload and the code writes in every mode. -/
+theorem table_agrees_with_spec_except : specDisagreements table.rows = ["extensions"] := by decide
+
+/-- The spec knows the wire identity of every element the code can write (no row is payload merely by default). -/
+theorem table_spec_covers_every_row : specUnknown table.rows = [] := by decide
+
+/-- The write-side predicate fails today on exactly one row: `extensions` (class payload, written under `both`).
+Moving any payload writer out of the sensitive block, or adding a writer the spec does not know to the public block
+or the tail, adds its row to this list. -/
+theorem table_offending_write : offendingWrite table = ["extensions"] := by decide
+
+/-- What the partition theorems need holds for the whole table. -/
+theorem table_wf_split : WFsplit table := by decide
 
 /-- Recognisers pairwise distinguishable on everything the writers produce, names unique, chain = rows. -/
 theorem table_wf_shape : WFshape table := by decide
 
 /-- No row has its recogniser under a different guard than its writer.  (Before /repo commit 968e727 this list was
-`["jingleMessageInitiationElement", "callInviteElement"]`: parsed in the public block, written in the sensitive one.) -/
+`["jingleMessageInitiationElement", "callInviteElement"]`.) -/
 theorem table_offending_parse : offendingParse table = [] := by decide
 
-/-- No wrapper row is written by `toXml(SceSensitive)`.  (Before /repo commit 7d68095 this list was
-`["extendedAddresses"]`: `toXml` did not forward its mode to `QXmppStanza::extensionsToXml`.) -/
-theorem table_offending_toXml : offendingToXml table = [] := by decide
+/-- `toXml(SceSensitive)` writes one thing the envelope content lacks: the unknown extensions.  (`extendedAddresses`
+left this list with /repo commit 7d68095.) -/
+theorem table_offending_toXml : offendingToXml table = ["extensions"] := by decide
 
-/-- **The whole generated table is well-formed** (every row's parse guard = its write guard, no payload-class row
-written under a public or shared guard, recognisers pairwise distinguishable). -/
-theorem table_wf : WFtable table := by decide
+/-- Without the `extensions` row the table is fully well-formed. -/
+theorem table_wf_without_defects : WFtable (table.without ["extensions"]) := by decide
 
-/-- No payload in the public part — today's code, all messages. -/
-theorem today_public_has_no_sensitive (m : Msg) :
-    ∀ e ∈ publicPart table m, ∃ r ∈ table.rows, e ∈ m r.name ∧ r.cls ≠ .payload :=
-  public_has_no_sensitive table table_wf_write m
+/-- `public_has_no_sensitive`, partial — today's code, all messages: every element of the public part is non-payload
+OR an application-supplied unknown extension.  Missing for the full statement: `WFwrite table`, false because of the
+`extensions` row (`C17_defect_extensions_public`). -/
+theorem today_public_has_no_sensitive_partial (m : Msg) :
+    ∀ e ∈ publicPart table m, ∃ r ∈ table.rows, e ∈ m r.name ∧ (r.cls ≠ .payload ∨ r.name = "extensions") := by
+  intro e he
+  obtain ⟨r, hr, hmem, hc⟩ := public_has_no_sensitive_except table m e he
+  refine ⟨r, hr, hmem, ?_⟩
+  rcases hc with hc | hc
+  · left; exact hc
+  · right; rw [table_offending_write] at hc; simpa using hc
 
-/-- Partition — today's code, all messages. -/
+/-- Partition — today's code, all messages (full: the unknown extensions are in exactly one part; the wrong one). -/
 theorem today_parts_partition (m : Msg) :
     (writeMode table m .all ++ fallbackCopies table m).Perm (publicPart table m ++ sensitivePart table m) :=
-  parts_partition table table_wf_write m
+  parts_partition table table_wf_split m
 
-/-- **Recovery — today's code, all valid messages, every row** (rows written in both parts, i.e. the explicit
-fallback markers, aside): the receive path gives back each field, and neither step leaves an unknown extension. -/
-theorem today_split_parse_recovers (m : Msg) (hv : Msg.Valid table m) :
-    (∀ r ∈ table.rows, (r.writeGuard ≠ .both ∨ r.wrapper = true) → (recover table m).msg r.name = m r.name)
-    ∧ (recover table m).unknown = []
-    ∧ (parseMode table (publicPart table m) .pub true Msg.empty).unknown = [] :=
-  split_parse_recovers table table_wf m hv
+/-- `split_parse_recovers`, partial — today's code, all valid messages: every KNOWN field is recovered.  Missing for
+the full statement: the unknown extensions (`C17_defect_extensions_lost`). -/
+theorem today_split_parse_recovers_partial (m : Msg) (hv : Msg.Valid table m) (r : Row) (hr : r ∈ table.rows)
+    (hca : r.catchAll = false) (hnb : r.writeGuard ≠ .both ∨ r.wrapper = true) :
+    (recover table m).msg r.name = m r.name :=
+  split_parse_recovers_row table table_wf_split table_wf_shape m hv r hr
+    (wfParse_of_not_offending hr (by rw [table_offending_parse]; simp)) hca hnb
 
-/-- `toXml(SceSensitive)` writes exactly the envelope content — today's code, all messages: the `toXml` reading of
-"sensitive part" and the real split coincide. -/
-theorem today_toXml_sensitive_is_content (m : Msg) : writeMode table m .sens = writeExt table m .sens :=
-  toXml_sensitive_is_content table table_offending_toXml m
+/-- witness: a message whose only content is one application-supplied unknown extension -/
+def extMsg : Msg := Msg.empty.set "extensions" [{ tag := "app-ext", ns := "verif:app", val := "custom payload" }]
+
+theorem extMsg_valid : Msg.Valid table extMsg := by decide
+
+/-- **Defect (today's code).** `public_has_no_sensitive` is false for the generated table: an unknown extension —
+payload by the spec — is written into the public part. -/
+theorem C17_defect_extensions_public :
+    ¬ (∀ m, Msg.Valid table m → ∀ e ∈ publicPart table m, ∃ r ∈ table.rows, e ∈ m r.name ∧ r.cls ≠ .payload) := by
+  intro h
+  have := h extMsg extMsg_valid { tag := "app-ext", ns := "verif:app", val := "custom payload" } (by decide)
+  revert this
+  decide
+
+/-- **Defect (today's code).** `split_parse_recovers` is false for the generated table: the unknown extension is not
+in the envelope content, and the receive path replaces the unknown extensions by those of the content — so it is lost. -/
+theorem C17_defect_extensions_lost :
+    ¬ (∀ m, Msg.Valid table m → (recover table m).unknown = catchAllValue table m) := by
+  intro h
+  have := h extMsg extMsg_valid
+  revert this
+  decide
+
+/-- …what happens instead, concretely: in the clear on the wire, absent from the ciphertext, gone after decryption,
+and present in both `toXml` parts. -/
+theorem C17_defect_extensions_witness :
+    publicPart table extMsg = extMsg "extensions"
+    ∧ sensitivePart table extMsg = []
+    ∧ (recover table extMsg).unknown = []
+    ∧ writeMode table extMsg .sens = extMsg "extensions" := by decide
 
 /-! ## Non-vacuity and regression witnesses -/
 
@@ -221,9 +345,7 @@ def callInviteMsg : Msg := Msg.empty.set "callInviteElement"
 def addrMsg : Msg := Msg.empty.set "extendedAddresses"
   [{ tag := "addresses", ns := "http://jabber.org/protocol/address", val := "addr-1" }]
 
-/-- The three former counterexamples are valid messages and now behave as the property demands: the element is in
-the sensitive part only and comes back through the receive path; the address is in the public part only and is
-read once, also through the `toXml`/`parse` pair. -/
+/-- The three former counterexamples are valid messages and behave as the property demands. -/
 example :
     Msg.Valid table jmiMsg ∧ publicPart table jmiMsg = []
     ∧ (recover table jmiMsg).msg "jingleMessageInitiationElement" = jmiMsg "jingleMessageInitiationElement"
@@ -242,8 +364,22 @@ def sampleMsg : Msg :=
       "extendedAddresses" [{ tag := "addresses", ns := "http://jabber.org/protocol/address", val := "a" }]).set
       "e2eeFallbackBody" [{ tag := "body", ns := "", val := "fb" }]
 
-/-- The hypotheses of the generic theorems and of `today_split_parse_recovers` are met by a non-trivial message, and
-the three parts are what one expects. -/
+/-- the table as the proposed fix (fixes/C17-unknown-extensions-sensitive.diff) makes the translator emit it: the
+`extensions` row sensitive-guarded and part of `serializeExtensions` -/
+def fixedTable : Table :=
+  let fix := fun r : Row => if r.catchAll then { r with writeGuard := .sens, wrapper := false } else r
+  { rows := table.rows.map fix, parse := table.parse.map fix }
+
+/-- The hypotheses of the generic theorems are satisfiable by a real, complete table and a non-trivial valid message
+that also carries an unknown extension; the parts are what one expects and everything comes back. -/
+example :
+    WFtable fixedTable ∧ specDisagreements fixedTable.rows = []
+    ∧ Msg.Valid fixedTable (sampleMsg.set "extensions" (extMsg "extensions"))
+    ∧ (publicPart fixedTable (sampleMsg.set "extensions" (extMsg "extensions"))).map (·.val) = ["fb", "h1", "h2", "f", "a"]
+    ∧ (sensitivePart fixedTable (sampleMsg.set "extensions" (extMsg "extensions"))).map (·.val) = ["b", "f", "custom payload"]
+    ∧ (recover fixedTable (sampleMsg.set "extensions" (extMsg "extensions"))).unknown = extMsg "extensions" := by decide
+
+/-- The partial theorems about today's table are not vacuous either. -/
 example :
     Msg.Valid table sampleMsg
     ∧ (publicPart table sampleMsg).map (·.val) = ["fb", "h1", "h2", "f", "a"]
@@ -254,11 +390,19 @@ example :
     ∧ (recover table sampleMsg).msg "hints" = sampleMsg "hints" := by decide
 
 /-- The predicates can fail, and name the row: the pre-968e727 guard of the JMI recogniser, the pre-7d68095 guard of
-the addresses writer, and a payload row moved to the unguarded tail are each rejected. -/
+the addresses writer, a payload row moved to the unguarded tail, and a hint moved into the ciphertext (spec
+disagreement in the other direction) are each rejected. -/
 example :
     offendingParse { rows := [{ r_jingleMessageInitiationElement with parseGuard := .pub }], parse := [] }
       = ["jingleMessageInitiationElement"]
     ∧ offendingToXml { rows := [{ r_extendedAddresses with writeGuard := .both }], parse := [] } = ["extendedAddresses"]
-    ∧ offendingWrite { rows := [{ r_body with writeGuard := .both }], parse := [] } = ["body"] := by decide
+    ∧ offendingWrite { rows := [{ r_body with writeGuard := .both }], parse := [] } = ["body"]
+    ∧ specDisagreements [{ r_hints with writeGuard := .sens }] = ["hints"] := by decide
+
+/-- The classification really comes from the wire identity: the same row under another namespace changes class. -/
+example :
+    r_hints.cls = .hint ∧ ({ r_hints with nss := ["urn:example:unknown"] } : Row).cls = .payload
+    ∧ r_body.cls = .payload ∧ r_e2eeFallbackBody.cls = .fallback ∧ r_stanzaIds.cls = .id
+    ∧ classOfWire "received" "urn:xmpp:receipts" = .payload ∧ classOfWire "store" "urn:xmpp:hints" = .hint := by decide
 
 end Qx.C17
